@@ -414,6 +414,10 @@ impl<'a> Model<'a> {
             && matches!(res, OpRes::Err(ErrKind::BufferTooSmall | ErrKind::InflightExhausted | ErrKind::NotReady))
             && !self.trs[tr].hostile
         {
+            if res == OpRes::Err(ErrKind::InflightExhausted) {
+                // the only inbound packet that needs a new in-flight slot is a PUBREC (its PUBREL)
+                self.bad("C06", "C06/qos2-exchange-dropped-no-release-slot", format!("op {op} ({kind:?}) returned InflightExhausted: a QoS 2 exchange lost its place because too many exchanges wait for PUBCOMP"));
+            }
             if let Some(o) = self.owed.front().copied() {
                 self.bad("C04", format!("C04/ack-blocked-by-resource-error/type={}", o.ptype), format!("op {op} ({kind:?}) returned {res:?} while the acknowledgement type {} for inbound id {} is owed: acknowledgements must not depend on free transmit arena space or slots", o.ptype, o.pid));
             } else {
@@ -656,6 +660,10 @@ impl<'a> Model<'a> {
         if first_on_tr != matches!(p.packet, Packet::Connect(_)) {
             self.bad("C01", format!("C01/connect-position/{}", p.packet.type_name()), format!("transport {tr}: CONNECT must be exactly the first packet (packet #{pi} is {})", p.packet.type_name()));
         }
+        // C14: nothing longer than the current CONNACK's Maximum Packet Size, whatever the type
+        if !matches!(p.packet, Packet::Connect(_)) {
+            self.size_check(tr, pi);
+        }
         if self.trs[tr].hostile {
             return;
         }
@@ -667,15 +675,12 @@ impl<'a> Model<'a> {
                     Some(_) => {}
                     None => self.bad("C09", "C09/qos0-publish-mismatch", format!("transport {tr}: QoS 0 PUBLISH on the wire does not match the request of the running operation: {:?}", short(&p.packet))),
                 }
-                self.size_check(tr, pi);
             }
             Packet::Publish(_) | Packet::Subscribe { .. } | Packet::Unsubscribe { .. } => {
                 self.on_request_packet(pi);
-                self.size_check(tr, pi);
             }
             Packet::PubRel(a) => {
                 self.on_pubrel(tr, a.pid, a.code());
-                self.size_check(tr, pi);
             }
             Packet::PubAck(a) => self.on_client_ack(tr, 4, a),
             Packet::PubRec(a) => self.on_client_ack(tr, 5, a),
@@ -691,7 +696,6 @@ impl<'a> Model<'a> {
                     Some(_) => {}
                     None => self.bad("C09", "C09/disconnect-mismatch", format!("transport {tr}: DISCONNECT on the wire does not match the running request: {:?}", p.packet)),
                 }
-                self.size_check(tr, pi);
             }
             other => {
                 self.bad("C01", format!("C01/illegal-type/{}", other.type_name()), format!("transport {tr}: a client must never send {}", other.type_name()));
